@@ -63,6 +63,8 @@ ACTIONS = [
     ('stl-prefix-1-three-user-files', PREFIXED, dict(w=64, use_stl=True, stl_prefix=1, extra_files=2)),
     ('stl-prefix-2-two-user-files', PREFIXED, dict(w=64, use_stl=True, stl_prefix=2, extra_files=1)),
 ]
+CORE3 = ('hello64', 'fail-in-nested-ns', 'unknown-macro', 'recursion-depth-5', 'depth-2000', 'stl-other-short-names', 'defines-constants-then-fails',
+         'stl-prefix-1-one-user-file', 'warning-program')
 PROBES = [
     ('p-hello64-v3', HELLO, dict(w=64, use_stl=True, version=3)),
     ('p-rep32-v2', REPHEAVY, dict(w=32, use_stl=True, version=2)),
@@ -225,8 +227,13 @@ def main():
     ref = refs[0]
     depth = 3 if args.tier == 'thorough' else 2
     histories = [()]
-    for d in range(1, depth + 1):
+    for d in range(1, 3):
         histories += list(itertools.product(range(len(ACTIONS)), repeat=d))
+    if depth == 3:
+        # depth 3 over the whole alphabet (23^3 histories x 12 probes, a fresh child each) did not finish in 100 minutes: depth 3 is
+        # complete over a core of the actions that leave state behind in different ways
+        core = [i for i, a in enumerate(ACTIONS) if a[0] in CORE3]
+        histories += list(itertools.product(core, repeat=3))
     total = {}
     states = set()
     outcomes = {}
@@ -251,7 +258,7 @@ def main():
         'samples': samples,
         'histories': total.get('histories', 0),
         'action_outcomes': outcomes,
-        'bounds': {'depth': depth, 'actions': [a[0] for a in ACTIONS], 'probes': [p[0] for p in PROBES]},
+        'bounds': {'depth': depth, 'depth_3_core': list(CORE3) if depth == 3 else None, 'actions': [a[0] for a in ACTIONS], 'probes': [p[0] for p in PROBES]},
         'exhaustive': not vac,
     }
     code = run.finish(cov, assumptions=[
